@@ -2009,7 +2009,23 @@ func (p *CodeBuilder) Send() *CodeBuilder {
 	}
 	val := p.stk.Pop()
 	ch := p.stk.Pop()
-	// TODO: check types
+	typ := ch.Type
+	if named, ok := types.Unalias(typ).(*types.Named); ok {
+		typ = p.getUnderlying(named)
+	}
+	t, ok := types.Unalias(typ).(*types.Chan)
+	if !ok {
+		src, pos, end := p.loadExpr(ch.Src)
+		p.panicCodeErrorf(pos, end, "invalid operation: cannot send to non-channel %s (type %v)", src, ch.Type)
+	}
+	if t.Dir() == types.RecvOnly {
+		src, pos, end := p.loadExpr(ch.Src)
+		p.panicCodeErrorf(pos, end, "invalid operation: cannot send to receive-only channel %s (type %v)", src, ch.Type)
+	}
+	if !AssignableConv(p.pkg, val.Type, t.Elem(), val) {
+		src, pos, end := p.loadExpr(val.Src)
+		p.panicCodeErrorf(pos, end, "cannot use %s (type %v) as type %v in send", src, val.Type, t.Elem())
+	}
 	emitSendStmt(p, ch.Val, val.Val)
 	return p
 }
